@@ -79,12 +79,17 @@ def body():
     creds = tlslib.ensure_creds()
     DEV = {  # deviation -> (certificate presented, chains to the anchors, possession proved)
         "honest": (True, True, True), "empty_cert": (False, False, False), "empty_cert_with_cv": (False, False, True), "no_cert_msg": (False, False, False),
-        "cert_no_cv": (True, True, False), "cv_wrong_key": (True, True, False), "cv_stale_transcript": (True, True, False)}
+        "cert_no_cv": (True, True, False), "cv_wrong_key": (True, True, False), "cv_stale_transcript": (True, True, False),
+        # sequence deviations with otherwise good credentials: never a completed handshake
+        "ccs_early": (True, True, True), "no_ccs": (True, True, True), "ccs_twice": (True, True, True), "finished_plain": (True, True, True), "finished_wrong": (True, True, True), "no_finished": (True, True, True)}
+    MALFORMED = {"ccs_early", "no_ccs", "ccs_twice", "finished_plain", "finished_wrong", "no_finished"}
+    MALFORMED = {"ccs_early", "no_ccs", "ccs_twice", "finished_plain", "finished_wrong", "no_finished"}
     jobs = []
     for proto, sp in ((257, "tlcp"), (771, "srv")):
         jobs += [(proto, sp + "_d2", "trust_root", d, "cli_d2") for d in DEV]
         jobs += [(proto, sp + "_d2", "trust_evil", "honest", "cli_d2"), (proto, sp + "_d2", "trust_root", "honest", "cli_untrusted"), (proto, sp + "_d2", "-", "honest", "cli_d2"),
                  (proto, sp + "_d3", "trust_root", "empty_cert", "cli_d2"), (proto, sp + "_d1", "trust_root", "cert_no_cv", "cli_d3")]
+        jobs += [(proto, sp + "_d2", "-", d, "cli_d2") for d in sorted(MALFORMED)]            # the same sequence deviations without client authentication
     def one(j):
         proto, scred, strust, dev, ccred = j
         return j, roguepeer.run(creds, exe, proto, scred, strust, dev, ccred=ccred)
@@ -101,7 +106,7 @@ def body():
             cert, ok, poss = DEV[dev]
             ok = ok and strust == "trust_root" and ccred != "cli_untrusted"
             data = [e for e in evs if e["e"] == "Data"]
-            rexecs.append((key, [{"e": "Rogue", "dev": dev, "mutual": strust != "-", "cCert": cert, "cOK": ok, "cPoss": poss, "srvrc": hr[0]["rc"], "peerdone": bool(view.get("completed")),
+            rexecs.append((key, [{"e": "Rogue", "dev": dev, "mutual": strust != "-", "cCert": cert, "cOK": ok, "cPoss": poss, "wellformed": dev not in MALFORMED, "srvrc": hr[0]["rc"], "peerdone": bool(view.get("completed")),
                                   "delivered": bool(data and data[0].get("rc") == 1 and data[0].get("got") == "70696e67")}], view))
     rej2, st2 = vlib.validate("RogueTrace", [e[1] for e in rexecs], tag="c09r")
     c.cov["traces_validated_against_impl"] += len(rexecs)
